@@ -3,7 +3,7 @@
    Every sampler is a function of an oracle stream of recorded random draws (GraphGen.v); the statements
    quantify over EVERY stream: whenever the construction returns a graph, the graph has the promised structure. *)
 From Coq Require Import ZArith List Bool.
-From Cnfgen Require Import Comb GText GraphIO GraphIOFacts GraphGen GraphGenFacts.
+From Cnfgen Require Import Comb GText GraphIO GraphIOFacts GraphGen GraphGenFacts GraphGenRegular.
 Import ListNotations.
 Open Scope Z_scope.
 
@@ -41,6 +41,39 @@ Print Assumptions C15_left_regular.
 Example C15_left_regular_nonvacuous :
   gg_left_regular 2 3 2 [0; 2; 1; 0] = GGOk (mkIOG KBipartite [] 2 3 [(1,1); (1,3); (2,1); (2,2)], []).
 Proof. vm_compute. reflexivity. Qed.
+
+(* ---- (3) regular: degree d on the left and l*d/r on the right, whenever it returns ---- *)
+(* repaired variant (the free pair found by the exhaustive test is used): for every stream and every restart fuel *)
+Theorem C15_regular_spec : forall restarts l r d s G s',
+  gg_random_regular_spec restarts l r d s = GGOk (G, s') ->
+  io_kind G = KBipartite /\
+  (forall u, 1 <= u <= l -> Z.of_nat (length (gio_succs G u)) = d) /\
+  (forall v, 1 <= v <= r -> Z.of_nat (length (gio_preds G v)) = l * d / r) /\
+  gg_nedges G = l * d.
+Proof. exact random_regular_spec_degrees. Qed.
+Print Assumptions C15_regular_spec.
+(* the code as it is: regular exactly when no position was skipped, i.e. when the graph has l*d edges *)
+Theorem C15_regular_partial : forall restarts l r d s G s',
+  gg_random_regular_as_is restarts l r d s = GGOk (G, s') -> gg_nedges G = l * d ->
+  io_kind G = KBipartite /\
+  (forall u, 1 <= u <= l -> Z.of_nat (length (gio_succs G u)) = d) /\
+  (forall v, 1 <= v <= r -> Z.of_nat (length (gio_preds G v)) = l * d / r) /\
+  gg_nedges G = l * d.
+Proof. exact random_regular_as_is_partial. Qed.
+Print Assumptions C15_regular_partial.
+(* ... and a stream on which it returns a graph that is not regular, for arguments the guard accepts (regular 2 2 2) *)
+Theorem C15_regular_refuted : exists restarts l r d s G s',
+  gg_guard_regular [l; r; d] = true /\ gg_random_regular_as_is restarts l r d s = GGOk (G, s') /\
+  exists u, 1 <= u <= l /\ Z.of_nat (length (gio_succs G u)) <> d.
+Proof. exact random_regular_as_is_refuted. Qed.
+Print Assumptions C15_regular_refuted.
+Example C15_regular_nonvacuous :
+  gg_random_regular_spec 1 2 2 2 [0; 0; 1; 1; 2; 3; 3; 3] = GGOk (mkIOG KBipartite [] 2 2 [(1,1); (1,2); (2,1); (2,2)], []) /\
+  gg_random_regular_as_is 1 2 2 2 [0; 0; 1; 1; 2; 3; 3; 3] = GGOk (mkIOG KBipartite [] 2 2 [(1,1); (1,2); (2,1); (2,2)], []) /\
+  gg_random_regular_as_is 1 2 2 2 ([0; 0] ++ concat (repeat [2; 2] 12) ++ [2; 3; 3; 3]) = GGOk (mkIOG KBipartite [] 2 2 [(1,1); (1,2); (2,1)], []) /\
+  gg_random_regular_spec 1 2 2 2 ([0; 0] ++ concat (repeat [2; 2] 12) ++ [2; 3; 3; 3]) = GGOk (mkIOG KBipartite [] 2 2 [(1,1); (1,2); (2,1); (2,2)], []) /\
+  gg_random_regular_spec 5 3 0 2 [] = GGZeroDiv /\ gg_random_regular_spec 5 3 2 1 [] = GGRaise EValueError.
+Proof. vm_compute. repeat split. Qed.
 
 (* ---- (4) path, tree, pyramid: closed-form vertex and edge counts, acyclic ---- *)
 Theorem C15_dag_path : forall len, 0 <= len -> exists G, gg_dag_path len = GGOk G /\
